@@ -38,6 +38,13 @@ TRUSTED_BASE = [
 ]
 
 
+DEFAULT_ASSUMES = [
+    "the theorems are about the hand-written Gallina model; the model is tied to /repo's current source by the correspondence run of this check (and, for C13, by definitions regenerated from the source), not by a verified C++ semantics",
+    "scalar structures are assumed to satisfy the ordered-field laws (class Laws), as premises of the theorems; floating-point types do not, which is what C16 is about",
+    "grids are assumed shorter than 2^63 points (a std::vector's size fits ptrdiff_t); index arithmetic is modelled in N with explicit wrap-around at 2^64",
+]
+
+
 def load_known():
     findings, fixed = [], []
     if os.path.exists(KNOWN):
@@ -306,9 +313,13 @@ def main(argv):
         k = " ".join(v.split()[:2]) if not v.startswith("OK") else "OK"
         outcome_kinds[k] = outcome_kinds.get(k, 0) + 1
     samples = []
+    first_variant = next((r.get("lines", {}) for r in res.get("variants", {}).values() if "lines" in r), {})
     for c in cases[:: max(1, len(cases) // 4)][:4]:
-        j = min(len(c.lines), 6)
-        samples.append({"case": c.cid, "ops": c.lines[:j], "model_outputs": [ml.get(f"{c.cid}.{i}") for i in range(1, j + 1)]})
+        setup = c.lines[:3]
+        interesting = [(i, t) for i, t in enumerate(c.lines, 1) if nontriv(t) and i > 3][:4]
+        samples.append({"case": c.cid, "setup": setup,
+                        "operations": [{"op": t[:400], "model": (ml.get(f"{c.cid}.{i}") or "")[:400],
+                                        "implementation": (first_variant.get(f"{c.cid}.{i}") or "")[:400]} for i, t in interesting]})
     ev = {
         "property_id": pid, "tier": tier, "seed": seed, "level": cfg["level"],
         "coverage": {
@@ -327,7 +338,7 @@ def main(argv):
             "explanation": cfg.get("explanation", ""),
             "known_findings_reobserved": known_lines,
         },
-        "assumptions": cfg.get("assumes", []),
+        "assumptions": DEFAULT_ASSUMES + cfg.get("assumes", []),
         "wall_s": round(time.time() - t0, 2),
         "violations": len(violations),
     }
